@@ -510,6 +510,10 @@ def misidentification(F, p):
     Given folded spectrum, and probability p that one of the derived alleles is the actual ancestral allele
     Then refold to return folded spectrum
     """
+    # The loop below visits the folded half only: fold an unfolded spectrum first
+    # (the demographic models pass what they computed, folded or not).
+    if getattr(F, 'folded_major', None) is False:
+        F = F.fold_major()
     # Masked entries hold no sites.
     data = np.ma.filled(F, 0.)
     F_new = np.zeros((len(F),len(F)))
